@@ -8,14 +8,23 @@ package statefulset
 @*/
 /*@ immutable types/statefulset.subscription.parent types/statefulset.subscription.outch types/statefulset.subscription.cache
   types/statefulset.cache.parent types/statefulset.controller.parent types/statefulset.controller.cache types/statefulset.filterController.filterParent
-  types/statefulset.filterSubscription.filterParent
+  types/statefulset.filterSubscription.filterParent types/statefulset.filterController.controller
 @*/
 /*@ nonblocking-send types/statefulset.subscription.outch
 @*/
 
 /*@ theory statefulsettyped
 ;; theory lists wiring
-;; uses types/statefulset.event
+;; uses types/statefulset.event types/statefulset.controller
+(declare-fun |F!types/statefulset.filterController!controller| (V) |S!types/statefulset.controller|)
+(assert (forall ((c V)) (! (=> (= (dyntype c) |ty!*types/statefulset.filterController|)
+                               (not (= (|types/statefulset.controller.parent| (|F!types/statefulset.filterController!controller| c)) vnil)))
+                          :pattern ((|F!types/statefulset.filterController!controller| c)))))
+(declare-fun |F!types/statefulset.controller!parent| (V) V)
+; object invariant of the typed controllers (they are only built by newController / newFilterController,
+; whose precondition is a non-nil parent; the field is immutable)
+(assert (forall ((c V)) (! (=> (or (= (dyntype c) |ty!*types/statefulset.controller|) (= (dyntype c) |ty!*types/statefulset.filterController|))
+                               (not (= (|F!types/statefulset.controller!parent| c) vnil))) :pattern ((|F!types/statefulset.controller!parent| c)))))
 (define-fun isT ((o V)) Bool (and (not (= o vnil)) (= (dyntype o) |ty!*apps/v1.StatefulSet|)))
 (declare-fun tevt-type (V) Str)
 (declare-fun tevt-res (V) V)
@@ -239,6 +248,23 @@ package statefulset
   at call(Refilter) assert [refilters-the-untyped-subscription-with-the-given-filter] (and (= $recv {s.filterParent}) (= $0 {f}))
 @*/
 
+/*@ func types/statefulset.NewMonitor
+  props C20 C16
+  theory statefulsettyped
+  allow panic
+  note NewMonitor panics for a Publisher that is not one of this package's controllers (documented in the code)
+  requires (and (not (= {publisher} vnil)) (not (= {handler} vnil)))
+  at call(OnInitialize) assert [initialize-adapter] (= (closureOf $0) "types/statefulset.NewMonitor$1")
+  at call(OnCreate) assert [create-adapter-calls-oncreate] (= (closureOf $0) "types/statefulset.NewMonitor$2")
+  at call(OnUpdate) assert [update-adapter-calls-onupdate] (= (closureOf $0) "types/statefulset.NewMonitor$3")
+  at call(OnDelete) assert [delete-adapter-calls-ondelete] (= (closureOf $0) "types/statefulset.NewMonitor$4")
+  ensures (=> (= result1 vnil) (not (= result0 vnil)))
+@*/
+/*@ func types/statefulset.BuildHandler
+  props C20
+  fresh result
+  ensures (not (= result vnil))
+@*/
 /*@ func types/statefulset.NewMonitor$1
   props C20 C16
   theory statefulsettyped
